@@ -1,7 +1,7 @@
 (* image.ml — textually included after conv.ml by drivers that take an image:
    rebuilds the buffer from  len= fill= hdr= pokes=  (see harness/src/pe.rs) *)
 let pattern (fill : int) (i : int) : int =
-  if fill = 0 then 0 else (((i + fill) * 0x9E3779B1) land 0xFFFFFFFF) lsr 24
+  if fill = 0 then 0 else if fill = 0xFFFFFFFF then 0xFF else (((i + fill) * 0x9E3779B1) land 0xFFFFFFFF) lsr 24
 let image_of_fields fs : Bytes.t =
   let len = int_of_string (field fs "len") in
   let fill = int_of_string (field fs "fill") in
